@@ -9,7 +9,8 @@ Decided (structural):
  R2 K6  every field survives serde: for each struct reachable from ModuleV0 the derived
         Serialize writes as many fields as the struct declares (a skipped field would be lost on
         the round trip), and any field the serializer may omit (skip_serializing_if) is
-        defaulted, not required, by the derived Deserialize of the same struct.
+        defaulted, not required, by the derived Deserialize of the same struct; no hand-written
+        helper (`#[serde(with = ..)]`) is spliced into the derived impls.
  R3 K6  Machine::from_module consumes every field of ModuleV0: each ModuleV0 field flows into the
         Machine field of the same name (field coverage of the Machine aggregate).
 Not decided: equality of execution results after a round trip (value-level)."""
@@ -130,6 +131,26 @@ def run(F, rep, tier):
                       "every field the derived Serialize may omit (%s) is defaulted by the derived Deserialize" % sorted(skipped),
                       "derived Serialize for %s may omit %s, but the derived Deserialize reports missing_field for %s: such a value does not survive a round trip" % (p, sorted(skipped), bad or "(no visit_map found)"),
                       f.site())
+    # R2c no hand-written codec is spliced into the derived (de)serializers (#[serde(with/serialize_with/..)]):
+    # the derive's own field-by-field code preserves order and shape by construction, a helper does not
+    custom = []
+    nder = 0
+    for g in F.fns:
+        if not g.derived or not g.trait or not ("ser::Serialize" in g.trait or "de::Visitor" in g.trait or "de::Deserialize" in g.trait or "de::DeserializeSeed" in g.trait):
+            continue
+        if not g.path.lstrip("<").startswith(("aranya_policy_module", "aranya_policy_ast")):
+            continue
+        nder += 1
+        for c in g.calls:
+            if c.path and c.path.startswith("aranya_"):
+                h = F.fn_exact(c.path)
+                if h is not None and not h.derived and not h.exp:
+                    custom.append("%s (called from the derived %s at %s)" % (c.path, g.name, c.site()))
+    rep.floor("derived serde functions of module/ast types examined", nder, 300)
+    rep.check(not custom, "serde|no-hand-written-codec-in-derived-impls", "K3 who-may-call",
+              "the derived Serialize/Deserialize impls of the module's types call only serde and other derived impls (%d functions)" % nder,
+              "a hand-written codec is spliced into the derived (de)serializers of the module's types: %s. Unlike the derive's field-by-field code it cannot be shown to "
+              "preserve order and shape (e.g. a map-based helper re-sorts struct fields), so the module may not survive a round trip" % "; ".join(sorted(set(custom))[:4]))
     # R3
     fm = F.fn("aranya_policy_vm::machine::Machine::from_module")
     mv0 = [x["name"] for x in F.adts["aranya_policy_module::module::ModuleV0"]["variants"][0]["fields"]]
